@@ -6,12 +6,14 @@ LEVEL = 'proof'
 
 def build(ctx):
     common.encoder_tasks(ctx, lambda m: True, parts=('legal',))
+    common.pass_tasks(ctx, ['transform_compressible'])
     ctx.task('contracts.emit:task_emit_pass', 'resolve_instructions')
     ctx.trust(common.TRUST_BOUNDED)
 
 
 def bounded(ctx):
     ctx.task('bounded.tasks:encoder_text_task', 'all', ['accept', 'reject', 'own-error'], ['x'])
+    common.suites(ctx, ['cedge', 'dist'], {'accept'})
 
 
 def explanation(ctx):
